@@ -126,7 +126,7 @@ func (b *c39Built) sigFor(ident int, round uint64, data MessageHash) (merklesign
 
 func c39GenCase(t *rapid.T) *c39Case {
 	c := &c39Case{}
-	n := rapid.IntRange(4, 40).Draw(t, "participants")
+	n := rapid.SampledFrom([]int{4, 5, 7, 8, 9, 12, 15, 16, 17, 24, 31, 32, 33, 40}).Draw(t, "participants")
 	c.Seed = rapid.Int64().Draw(t, "seed")
 	r := mrand.New(mrand.NewSource(c.Seed))
 	kind := rapid.SampledFrom([]string{"equal", "small", "whale", "stake"}).Draw(t, "weights")
@@ -156,7 +156,7 @@ func c39GenCase(t *rapid.T) *c39Case {
 		c.Weights[0] = 7
 		total = 7
 	}
-	c.ST = rapid.SampledFrom([]uint64{8, 64, 256}).Draw(t, "strength")
+	c.ST = rapid.SampledFrom([]uint64{8, 64, 256, 256}).Draw(t, "strength")
 	c.Round = rapid.SampledFrom([]uint64{256, 300, 512, 767, 768, 1000}).Draw(t, "round")
 	for i := range c.Data {
 		c.Data[i] = byte(r.Intn(256))
@@ -226,7 +226,11 @@ func c39GenCase(t *rapid.T) *c39Case {
 	return c
 }
 
-func c39Build(c *c39Case, st uint64) (*c39Built, error) {
+func c39Build(c *c39Case, st uint64) (*c39Built, error) { return c39BuildWith(c, st, nil) }
+
+// c39BuildWith: forge == nil builds the honest prover; otherwise forge(i) supplies the (invalid) signature put into slot i,
+// as a prover that does not hold the participants' keys would (Prover.Add does not check signatures, IsValid does).
+func c39BuildWith(c *c39Case, st uint64, forge func(i int) (merklesignature.Signature, error)) (*c39Built, error) {
 	b := &c39Built{c: c, sigs: map[int]merklesignature.Signature{}}
 	for i, w := range c.Weights {
 		b.parts = append(b.parts, basics.Participant{PK: c39Ident(c.Ident[i]).ver, Weight: w})
@@ -244,6 +248,20 @@ func c39Build(c *c39Case, st uint64) (*c39Built, error) {
 	b.prover = p
 	for i, s := range c.Signs {
 		if !s {
+			continue
+		}
+		if forge != nil {
+			sig, err := forge(i)
+			if err != nil {
+				return nil, err
+			}
+			if err := p.IsValid(uint64(i), &sig, true); err == nil {
+				return nil, fmt.Errorf("IsValid accepted a forged signature for participant %d", i)
+			}
+			if err := p.Add(uint64(i), sig); err != nil {
+				return nil, fmt.Errorf("Add(%d): %w", i, err)
+			}
+			b.signed += c.Weights[i]
 			continue
 		}
 		sig, ok := b.sigs[c.Ident[i]]
@@ -725,6 +743,36 @@ func TestVerif_C39_Proofs(t *testing.T) {
 				if err := c39Verify(x); err != nil {
 					t.Fatalf("the weaker proof is not even valid for its own strength: %v", err)
 				}
+			}
+		}
+		// a prover without the participants' keys: every slot carries a well-formed but invalid signature, committed consistently
+		if r.Intn(2) == 0 {
+			kinds := []string{"signatures over another message", "signatures of other identities", "signatures from another key period"}
+			k := r.Intn(len(kinds))
+			forged, err := c39BuildWith(c, c.ST, func(i int) (merklesignature.Signature, error) {
+				switch k {
+				case 0:
+					d := c.Data
+					d[31] ^= 1
+					return c39Ident(c.Ident[i]).sign(c.Round, d[:])
+				case 1:
+					return c39Ident((c.Ident[i]+1)%c39PoolSize()).sign(c.Round, c.Data[:])
+				default:
+					return c39Ident(c.Ident[i]).sign(c39OtherRound(c.Round), c.Data[:])
+				}
+			})
+			if err != nil {
+				t.Fatalf("forging prover (%s): %v", kinds[k], err)
+			}
+			fsp, err := forged.prover.CreateProof()
+			if err != nil {
+				t.Fatalf("forging prover (%s) could not even build: %v", kinds[k], err)
+			}
+			vk.Label("forged prover: " + kinds[k])
+			vk.Add("tampered_proofs", 1)
+			x := &c39T{sp: fsp, b: b, round: c.Round, data: c.Data, partcom: b.partcom, pw: c.PW, st: c.ST}
+			if err := c39Verify(x); err == nil {
+				t.Fatalf("a proof whose slots all carry %s is accepted (signed %d, proven %d, strength %d, round %d)", kinds[k], b.signed, c.PW, c.ST, c.Round)
 			}
 		}
 		vk.Case(true, fp)
